@@ -1,4 +1,6 @@
 import Aiortc.Gen.Serial
+import Aiortc.Gen.Sctp
+import Aiortc.Gen.Rtp
 /-!
 # C17 — serial-number arithmetic (part 1: the laws of the regenerated comparison functions)
 
